@@ -158,7 +158,11 @@ func (e *Exec) finishPath(st *State, fr *Frame, res Value, in *ssa.Return) {
 	seen := map[string]int{}
 	site := strings.TrimPrefix(e.ordinalName(in, "return"), "safe:")
 	for _, en := range e.contract.Ensures {
-		g := env.evalBool(en.E)
+		g, cerr := env.tryEvalBool(en.E)
+		if cerr != "" {
+			e.stale[fmt.Sprintf("ensures[%s] of %s cannot be evaluated (%s)", strings.Join(en.Labels, ","), e.unit, cerr)] = true
+			continue
+		}
 		lbl := strings.Join(en.Labels, ",")
 		seen[lbl]++
 		name := fmt.Sprintf("ensures[%s]", lbl)
